@@ -371,3 +371,36 @@ Check c09_any_mode_never_skips_with_restarts : forall (c : Cfg) (m : mode) (be :
     exists k, (k <= l_del (lget g t))%nat /\
               unread c (nrm x (get_ts (reopen c s) t)) = skipn k (l_app (lget g t)).
 Print Assumptions c09_any_mode_never_skips_with_restarts.
+
+(* ... and crash points INSIDE a consuming read, any mode, after ANY history WITH restarts outside drift
+   (subsumes c09_any_mode_crash_inside_consuming_read; ledger = gm_ledger) *)
+Theorem c09_any_mode_crash_inside_consuming_read_with_restarts : forall (c : Cfg) (m : mode) (be : backend) (ops : list op) (o : op), cfg_ok c ->
+  consuming_read o = true ->
+  outside_known (env_of c m be) init (ops ++ [OReopen]) = true ->
+  N.of_nat (length (offered_all ops)) <= u64_max -> sum_len (offered_all ops) <= u64_max ->
+  let v := env_of c m be in
+  let s := exec v init ops in
+  let s' := fst (step v s o) in
+  let g := gm_ledger v init [] ops in
+  let g' := ledger_step g o (snd (step v s o)) in
+  forall image, image = reopen c s \/ image = reopen c s' ->
+  forall t0 x,
+    stream (get_ts image t0) = l_app (lget g t0) /\
+    exists k, (k <= l_del (lget g' t0))%nat /\
+              unread c (nrm x (get_ts image t0)) = skipn k (l_app (lget g t0)).
+Proof. exact crash_inside_consuming_read_with_restarts. Qed.
+Check c09_any_mode_crash_inside_consuming_read_with_restarts : forall (c : Cfg) (m : mode) (be : backend) (ops : list op) (o : op), cfg_ok c ->
+  consuming_read o = true ->
+  outside_known (env_of c m be) init (ops ++ [OReopen]) = true ->
+  N.of_nat (length (offered_all ops)) <= u64_max -> sum_len (offered_all ops) <= u64_max ->
+  let v := env_of c m be in
+  let s := exec v init ops in
+  let s' := fst (step v s o) in
+  let g := gm_ledger v init [] ops in
+  let g' := ledger_step g o (snd (step v s o)) in
+  forall image, image = reopen c s \/ image = reopen c s' ->
+  forall t0 x,
+    stream (get_ts image t0) = l_app (lget g t0) /\
+    exists k, (k <= l_del (lget g' t0))%nat /\
+              unread c (nrm x (get_ts image t0)) = skipn k (l_app (lget g t0)).
+Print Assumptions c09_any_mode_crash_inside_consuming_read_with_restarts.
